@@ -110,8 +110,8 @@ type analysis struct {
 
 // flags select optional extra separation rules (used while the corresponding finding is open)
 type sepFlags struct {
-	strict  bool // aliases differ from everything visible where they are computed
-	perPart bool // a variable declared by a MATCH pattern shares its name with nothing else that occurs in the same query part
+	strict      bool // aliases differ from everything visible where they are computed
+	symbolLevel bool // the renaming is a bijection on symbols: two (non-parameter) classes get the same name iff they were spelled the same
 }
 
 func analyse(q *cypher.RegularQuery) (a *analysis, err error) {
@@ -579,29 +579,11 @@ func (a *analysis) conflicts(f sepFlags) []map[int]bool {
 			add(r)
 		}
 	}
-	if f.perPart {
-		decl := map[int]map[int]bool{} // part -> classes declared by its MATCH patterns
-		used := map[int]map[int]bool{}
-		for i, c := range a.seq {
-			if a.classes[c].Kind == kParam {
-				continue
-			}
-			k := a.occPart[i]
-			if used[k] == nil {
-				used[k], decl[k] = map[int]bool{}, map[int]bool{}
-			}
-			used[k][c] = true
-			if a.occDecl[i] {
-				decl[k][c] = true
-			}
-		}
-		for k, ds := range decl {
-			for d := range ds {
-				for c := range used[k] {
-					if c != d {
-						out[c][d] = true
-						out[d][c] = true
-					}
+	if f.symbolLevel {
+		for _, c := range a.classes {
+			for _, d := range a.classes {
+				if c.ID != d.ID && c.Kind != kParam && d.Kind != kParam && c.Orig != d.Orig {
+					out[c.ID][d.ID] = true
 				}
 			}
 		}
@@ -638,6 +620,15 @@ func (a *analysis) admissible(names []string, f sepFlags) bool {
 		for j := range set {
 			if names[i] == names[j] {
 				return false
+			}
+		}
+	}
+	if f.symbolLevel {
+		for _, c := range a.classes {
+			for _, d := range a.classes {
+				if c.Kind != kParam && d.Kind != kParam && c.Orig == d.Orig && names[c.ID] != names[d.ID] {
+					return false
+				}
 			}
 		}
 	}
